@@ -387,10 +387,10 @@ Definition ex_O : oracles :=
 Definition ex_o : opts := {| key := [107]%N; timeout := Some 1200%Z; reissue := Some 5000%Z; soe := true |}.
 Definition ex_chain : list req :=
   (* clock in ticks of 0.25 s: the session is created at 100.5 s and written at 100.75 s (stamped 100) *)
-  [ {| rsrc := SNone; rt := 402; rops := [(OSetItem [97]%N (JInt 1), 403%Z)]; rexc := false |};
-    {| rsrc := SLast; rt := 5200; rops := [(OItems, 5200%Z)]; rexc := false |};
-    {| rsrc := SText [65; 65]%N; rt := 5201; rops := [(OLen, 5201%Z)]; rexc := false |};
-    {| rsrc := SLast; rt := 5201; rops := []; rexc := false |} ].
+  [ {| rsrc := SNone; rt := 402; rops := [(OSetItem [97]%N (JInt 1), 403%Z)]; rexc := false; rcb := (0%nat, 0%nat) |};
+    {| rsrc := SLast; rt := 5200; rops := [(OItems, 5200%Z)]; rexc := false; rcb := (0%nat, 0%nat) |};
+    {| rsrc := SText [65; 65]%N; rt := 5201; rops := [(OLen, 5201%Z)]; rexc := false; rcb := (0%nat, 0%nat) |};
+    {| rsrc := SLast; rt := 5201; rops := []; rexc := false; rcb := (0%nat, 0%nat) |} ].
 
 (* the value stored in request 1 is there at the start of request 2 (exactly at the timeout),
    garbage gives a new empty session, and one second past the timeout the state is empty *)
